@@ -108,7 +108,7 @@ CHECKS = {
     "C11": dict(
         require={'path:solved': 0.05, 'path:zero-outflow': 0.03, 'lateral>0': 0.03, 'lag>length': 0.03},
         pkg="c11", level="exploration",
-        rule="rapid-generated StorageRouting cases (k log-uniform 1..1e6, m in [0.3,1] and exactly 1, dead storage 0 or >0, bias 0 or 0<bias with 2*k*bias<=dt, area 0 or >0 with rain/evaporation, initial storage 0 or >0, series 1..60 with zero-flow spells), Muskingum cases inside 2KX<=dt<=2K(1-X) (steady flows with equilibrium initial state; finite events from rest with a zero tail), Lag cases (lag 0..12, series shorter and longer than the lag, carried buffer, series fed in 1-3 calls); "
+        rule="rapid-generated StorageRouting cases (k log-uniform 1..1e6, m in [0.3,1], exactly 1, and in one case of eight just below 1 (1-m from 1e-6 to 5e-3), dead storage 0 or >0, bias 0 or 0<bias with 2*k*bias<=dt, area 0 or >0 with rain/evaporation, initial storage 0 or >0, series 1..60 with zero-flow spells), Muskingum cases inside 2KX<=dt<=2K(1-X) (steady flows with equilibrium initial state; finite events from rest with a zero tail), Lag cases (lag 0..12, series shorter and longer than the lag, carried buffer, series fed in 1-3 calls); "
              "oracles: per-step water balance S_t - S_{t-1} = (I+L-Q-E)*dt with E as the model defines it (1e-9 relative + the solver's 1e-3 m^3), Q,S >= 0, S = k*Q^m + dead within 2x the solver tolerance (horizontal or vertical distance to the curve), steady flow unchanged, event volume = inflow + lateral volume (geometric remainder of the recession added), outflow = buffer ++ inflow delayed by lag, final buffer = last lag inflows. "
              "Non-trivial = StorageRouting run entering >= 2 exit paths / Muskingum with lateral > 0 / Lag with lag > (segment) length; distinct = distinct case",
         assumptions=["net evaporation is taken exactly as the model defines it (unit of area undocumented)", "Muskingum remainder uses the textbook coefficients computed in the check"],
@@ -118,8 +118,8 @@ CHECKS = {
     "C12": dict(
         require={'InstreamFineSediment:deposition': 0.005, 'InstreamFineSediment:remobilisation': 0.005, 'LumpedConstituentRouting:flush': 0.02, '__nontrivial__': 0.2},
         pkg="c12", level="exploration",
-        rule="rapid-generated cases for the eight constituent models (parameters in range; load/flow/volume series with zero-flow and near-empty steps forced: volume and outflow zero or below/above the 0.01 m^3 threshold together; initial stored masses 0 or >0, fine sediment also negative = fraction of capacity; both branches of each model; fine sediment: overbank steps forced in half of the cases with a bank-full flow), stepped one timestep at a time with carried states so that the stored mass after every step is visible; "
-             "oracle: per-step and whole-run budget stored_before + in*dt = out*dt + deposited/trapped/decayed/floodplain + stored_after within 1e-9 relative, the documented flush (working volume < 0.01 m^3: nothing leaves, stored mass dropped) as the only permitted loss, loads and in-stream stores >= 0 for non-negative inputs, remobilisation <= channel store, channel store = previous + reported net deposition. "
+        rule="rapid-generated cases for the eight constituent models (parameters in range; load/flow/volume series with zero-flow and near-empty steps forced: volume and outflow zero or below/above the 0.01 m^3 threshold together; initial stored masses 0 or >0, fine sediment also negative = fraction of capacity; both branches of each model; fine sediment: overbank steps forced in half of the cases with a bank-full flow; rarely a series of 1023..8193 steps), stepped one timestep at a time with carried states so that the stored mass after every step is visible; "
+             "oracle: per-step and whole-run budget stored_before + in*dt = out*dt + deposited/trapped/decayed/floodplain + stored_after within 1e-9 relative, the documented flush (working volume < 0.01 m^3: nothing leaves, stored mass dropped) as the only permitted loss, loads and in-stream stores >= 0 for non-negative inputs, remobilisation <= channel store, channel store = previous + reported net deposition; and, the budget having been established step by step, the same series run in ONE call must give the same loads and final stores (1e-9 relative), with series of 1025 / 4097 / 5000 steps enumerated per model and branch on every run. "
              "Non-trivial = the run visits >= 2 branches of the model; distinct = distinct case",
         assumptions=["forcing values below 1e-6 of the series scale are snapped to zero (a reach volume of 1e-300 m^3 overflows concentration = mass/volume; not data)",
                      "StorageTrapAll has no timestep parameter: its budget is taken in the units it reports"],
@@ -129,7 +129,7 @@ CHECKS = {
     "C13": dict(
         require={'spill': 0.03, 'below-10%': 0.1, 'rain/evaporation-on-water': 0.2},
         pkg="c13", level="exploration",
-        rule="rapid-generated Storage cases (monotone level-volume-area tables and min/max release curves with minRelease <= maxRelease, 2..6 points, zero release/area at zero volume; DeltaT 3600..86400; inflow/demand/rainfall/PET series in filling, drawing-down, alternating and balanced modes; initial volume 0, from a previous run, or drawn up to 1.3x full supply); "
+        rule="rapid-generated Storage cases (monotone level-volume-area tables and min/max release curves with minRelease <= maxRelease, 2..6 points - in one case of twenty 31..100 points -, zero release/area at zero volume; DeltaT 3600..86400; inflow/demand/rainfall/PET series in filling, drawing-down, alternating and balanced modes; initial volume 0, from a previous run, or drawn up to 1.3x full supply); "
              "oracle: per-step dV = (inflow - outflow)*dt + (rainfallVolume - evaporationVolume)*dt within 1e-9 relative, V >= 0, final level/area = own interpolation of the tables, clamp(demand, minRel, maxRel) at the lower/upper volume traversed bounds the outflow (with the integrator's own acceptance slack), more only as spill when the volume reached the top of the table. "
              "Non-trivial = rain/evaporation acting on a non-empty store, or a series that both spills and falls below 10%; distinct = distinct case",
         assumptions=["release-curve slopes <= 1e-4 (m^3/s)/m^3 and zero release at zero volume, so that the model's minimum sub-timestep (6 s) can follow the draw-down (otherwise the kernel panics by design)",
@@ -140,7 +140,7 @@ CHECKS = {
     "C16": dict(
         require={'linearity-checked': 0.02, '__nontrivial__': 0.1},
         pkg="c16", level="exploration",
-        rule="rapid-generated cases for 20 partition / conversion / generation models (inputs including zero and, for the arithmetic models, negative values; fractions and scale factors also outside [0,1]; rating-table inputs at the end points, at knots and inside); "
+        rule="rapid-generated cases for 20 partition / conversion / generation models (inputs including zero and, for the arithmetic models, negative values; flows of 1e-7..1e-30 for the linear concentration generators; concentrations of exactly zero; fractions and scale factors also outside [0,1]; rating-table inputs at the end points, at knots and inside); "
              "oracle: closed-form reference per model (partition, scale, delivery ratio, depth-to-rate mm*1e-3*area/dt, gate, sum, pass-through, proportion, demand split), identities (outputs sum to input; total = quick + slow; fine share = fine fraction; delivered = generated x ratio/100; zero driver -> zero load; loads >= 0), closed forms for bank erosion and gully generation, and linearity in flow (metamorphic x c) for the concentration-based generators; 1e-12 relative. "
              "Non-trivial = the series has both a zero and a non-zero driver step; distinct = distinct case",
         assumptions=["outside its rating table RatingCurvePartition panics in the cell goroutine (C18 covers the error contract of the interpolation); inputs are generated inside the table"],
@@ -151,7 +151,7 @@ CHECKS = {
         require={'budget-suffices': 0.03, 'query:between-knots': 0.05},
         pkg="c18", level="exploration",
         rule="FindRoot: rapid-generated continuous functions (monotone piecewise-linear with flat pieces and kinks, power and exponential families, non-monotone waves with f(min)<0<f(max)), any initial guess, tolerance 1e-12..1, iteration limit 0..60, derivative none/exact/wrong/zero, convergence limit arbitrary or small enough not to pre-empt halving; every evaluation point recorded: inside [min,max] and not NaN, returned x inside, returned value == f(x), monotone: |value| <= better end, and < tolerance whenever the limit >= ceil(log2(L*(max-min)/tol))+1 (tolerance resolvable in floating point). "
-             "Piecewise: strictly increasing tables of 2..12 knots (also as stepped views, and - one case in three - as adjacent contiguous views of one array, the way the wrappers slice tables out of a parameter block, with the surrounding elements compared afterwards), queries at knots, between, just outside, far outside, NaN, +-Inf: error exactly outside/NaN, knots within 4 ulp, interpolant within 1e-12 and between the neighbouring values. Non-trivial = root search of >= 3 iterations or non-monotone function / query strictly between knots; distinct = distinct case",
+             "Piecewise: strictly increasing tables of 2..12 knots, in one case of ten 31..366 knots (also as stepped views, and - one case in three - as adjacent contiguous views of one array, the way the wrappers slice tables out of a parameter block, with the surrounding elements compared afterwards), queries at knots (explicitly also the first and the last), between, just outside, far outside, NaN, +-Inf: error exactly outside/NaN, knots within 4 ulp, interpolant within 1e-12 and between the neighbouring values. Non-trivial = root search of >= 3 iterations or non-monotone function / query strictly between knots; distinct = distinct case",
         assumptions=["classes where a bracket end is already within the tolerance, or the iteration limit is 0, only assert: point inside, value = f(point), evaluations inside"],
         quick=dict(stages=[st(10000, timeout=900)]),
         thorough=dict(stages=[st(0, fuzz="FuzzPiecewise", fuzztime="60s", timeout=600), st(0, fuzz="FuzzFindRoot", fuzztime="60s", timeout=600), st(220000, shards=16, timeout=3500)]),
@@ -159,7 +159,7 @@ CHECKS = {
     "C20": dict(
         require={'pair-straddles-freezing': 0.05, 'humidity-extreme': 0.2},
         pkg="c20", level="exploration",
-        rule="rapid-generated (elevation 0..10000 m, 1-20 pairs of points per case: temperature pairs T1<T2 at equal humidity incl. adjacent floats, 1e-9..1e-3 apart and straddling 0 C; humidity pairs at equal temperature; temperatures dense around 0 and integers, humidities dense near 0 and 100); "
+        rule="rapid-generated (elevation 0..10000 m, 1-20 pairs of points per case: temperature pairs T1<T2 at equal humidity incl. adjacent floats, 1e-9..1e-3 apart and straddling 0 C; humidity pairs at equal temperature; temperatures dense around 0 and integers, humidities dense near 0 and 100, one draw in six on a log scale from 1e-12 % to 1 %); "
              "oracle: outputs finite, vapour pressure > 0 and strictly increasing for T2-T1 >= 1e-6 (non-decreasing for closer pairs), dew point <= wet bulb <= dry bulb, deltaT == dry - wet, dew point non-decreasing in humidity. Non-trivial = a pair straddling freezing or humidity >= 99 or <= 1; distinct = distinct case",
         assumptions=[],
         quick=dict(stages=[st(3000, timeout=900)]),
